@@ -66,17 +66,14 @@ func Stats(logFileName, dbFileName string, sc StatsConfig) error {
 	}
 
 	countDb := 0
-	// with --no-database there is no file and the database is empty
-	if dbFileName != "" {
-		if err = parser.ParseFileCallback(dbFileName, sc.ParserConfig, func(n *shared.ParserNode, parseErr error) (stop bool, cbError error) {
-			if parseErr != nil {
-				return true, parseErr
-			}
-			countDb++
-			return false, nil
-		}); err != nil {
-			return err
+	if err = parser.ParseFileCallback(dbFileName, sc.ParserConfig, func(n *shared.ParserNode, parseErr error) (stop bool, cbError error) {
+		if parseErr != nil {
+			return true, parseErr
 		}
+		countDb++
+		return false, nil
+	}); err != nil {
+		return err
 	}
 
 	return NewStatsReporter(sc.ReporterConfig, &StatsData{
